@@ -138,6 +138,8 @@ class CliRules:
                 if p is not None:
                     return p[1] if p[0] == 'sstr' else (('?',),)
                 return (v,)
+            if v[0] == 'cstr':
+                return v[1]
             if v[0] == 'obj':
                 p = st.mem.get((v[1][0], v[1][1] + ('$str',)))
                 return p[1] if p is not None and p[0] == 'sstr' else (('?',),)
@@ -195,12 +197,111 @@ class CliRules:
         def m_file_size(I, st, fr, n, this, args, an):
             return [(st, TOP)]
 
+        # --- C strings built in char buffers: the same parts model, kept at (object, (0, '$str'))
+        def cbuf_key(p):
+            if p[0] == 'p' and p[2] and isinstance(p[2][-1], (int, tuple)):
+                return (p[1], p[2][:-1] + (0, '$str'))
+            return None
+
+        def total_len(I, st, parts):
+            tot = C(0)
+            for q in parts:
+                if isinstance(q, str):
+                    tot = binop('+', tot, C(len(q)), st.sym)
+                elif isinstance(q, tuple) and q and q[0] == 'p':
+                    nm = '$strlen:' + show(q)
+                    if nm not in st.sym:
+                        return None
+                    tot = binop('+', tot, sym(nm), st.sym)
+                else:
+                    return None
+            return tot
+
+        def m_memcpy_str(I, st, fr, n, this, args, an):
+            dst, src, cnt = args[0], args[1], args[2]
+            k = cbuf_key(dst)
+            old = st.mem.get(k) if k is not None else None
+            r = models.m_memcpy(I, st, fr, n, this, args, an)
+            if k is None:
+                return r
+            off = dst[2][-1]
+            off = C(off) if isinstance(off, int) else off
+            parts = old[1] if old is not None and old[0] == 'sstr' else ()
+            if off == C(0):
+                parts = ()
+            have = total_len(I, st, parts)
+            piece = None
+            if src[0] == 'p' and isinstance(src[1], tuple) and src[1][0] == 'str' and cnt[0] == 'c' and cnt[1] in (len(src[1][1]), len(src[1][1]) + 1):
+                piece = src[1][1]
+            elif src[0] == 'p' and cnt == sym('$strlen:' + show(src)):
+                piece = src
+            if piece is not None and have is not None and (have == off or compare('==', have, off, st.sym) is True):
+                st.mem[k] = ('sstr', parts + (piece,))
+            else:
+                st.mem[k] = ('sstr', (('?',),))
+            return r
+
+        def m_strcpy_str(I, st, fr, n, this, args, an):
+            dst, src = args[0], args[1]
+            I.emit('strwrite', st, node=n, dst=dst, args=args, argnodes=an, bounded=None)
+            k = cbuf_key(dst)
+            if k is not None:
+                st.mem[k] = ('sstr', sparts(I, st, src))
+            return [(st, dst)]
+
+        def m_strcat_str(I, st, fr, n, this, args, an):
+            dst, src = args[0], args[1]
+            I.emit('strwrite', st, node=n, dst=dst, args=args, argnodes=an, bounded=None)
+            k = cbuf_key(dst)
+            if k is not None:
+                old = st.mem.get(k)
+                st.mem[k] = ('sstr', (old[1] if old is not None and old[0] == 'sstr' else (('?',),)) + sparts(I, st, src))
+            return [(st, dst)]
+
+        def m_snprintf_str(I, st, fr, n, this, args, an):
+            r = models.m_snprintf(I, st, fr, n, this, args, an)
+            dst = args[0]
+            k = cbuf_key(dst)
+            fmt = args[2] if len(args) > 2 else None
+            if k is not None:
+                parts = (('?',),)
+                if fmt is not None and fmt[0] == 'p' and isinstance(fmt[1], tuple) and fmt[1][0] == 'str':
+                    text, rest, parts, ok = fmt[1][1], list(args[3:]), (), True
+                    i = 0
+                    lit = ''
+                    while i < len(text):
+                        if text[i] == '%' and i + 1 < len(text) and text[i + 1] == 's' and rest:
+                            if lit:
+                                parts += (lit,)
+                                lit = ''
+                            parts += sparts(I, st, rest.pop(0))
+                            i += 2
+                        elif text[i] == '%' and i + 1 < len(text) and text[i + 1] == '%':
+                            lit += '%'
+                            i += 2
+                        elif text[i] == '%':
+                            ok = False
+                            break
+                        else:
+                            lit += text[i]
+                            i += 1
+                    if lit:
+                        parts += (lit,)
+                    if not ok:
+                        parts = (('?',),)
+                    else:
+                        # a bounded write may cut the name short: what is dropped is a suffix
+                        parts = parts + (('$maybe-truncated', show(args[1])),)
+                st.mem[k] = ('sstr', parts)
+            return r
+
         mdl.update({'getopt_long': m_getopt, 'strlog': m_strlog, 'is_valid_b64': m_valid, 'base64_to_hex': m_noop_true,
                     'hex_to_base64': m_noop_true, 'atoi': m_atoi, 'std::vector::size': m_vecsize,
                     'std::basic_string::basic_string': m_str_ctor, 'std::operator+': m_str_plus,
                     'std::basic_string::operator=': m_str_assign, 'std::basic_string::operator+=': m_str_append, 'std::basic_string::append': m_str_append,
                     'std::basic_string::clear': m_str_clear, 'std::basic_string::c_str': m_str_cstr,
-                    'std::filesystem::file_size': m_file_size})
+                    'std::filesystem::file_size': m_file_size, 'memcpy': m_memcpy_str, 'strcpy': m_strcpy_str, 'strcat': m_strcat_str,
+                    'snprintf': m_snprintf_str})
         return mdl
 
     # ------------------------------------------------------------------ parser exploration
@@ -218,6 +319,10 @@ class CliRules:
                 self.strw = []
 
             def on_fopen(self, I, st, node, root, mode, path):
+                if path[0] == 'p' and not (isinstance(path[1], tuple) and path[1][0] == 'str'):
+                    p_ = st.mem.get((path[1], path[2] + ('$str',)))
+                    if p_ is not None and p_[0] == 'sstr':
+                        path = ('cstr', p_[1])
                 self.fopens.append((node, mode, path))
                 ops = set()
                 for k, v in st.mem.items():
@@ -479,6 +584,15 @@ class CliRules:
             for n in walk(fn['body']):
                 if n['k'] in ('CallExpr', 'CXXMemberCallExpr') and n.get('callee', {}).get('m') in prog.functions:
                     stack.append(n['callee']['m'])
+                # address-taken functions, directly or through a constant table the function reads (handler tables)
+                if n['k'] == 'DeclRefExpr' and n.get('dk') in ('Function', 'CXXMethod') and n.get('d') in prog.functions:
+                    stack.append(n['d'])
+                if n['k'] == 'DeclRefExpr' and n.get('glob'):
+                    g = prog.globals.get(str(n.get('d', ''))[2:])
+                    if g is not None and g.get('init') is not None:
+                        for m in walk(g['init']):
+                            if m['k'] == 'DeclRefExpr' and m.get('dk') in ('Function', 'CXXMethod') and m.get('d') in prog.functions:
+                                stack.append(m['d'])
         nchk = 0
         for x in reach:
             fn = prog.functions[x]
